@@ -131,7 +131,7 @@ class SSetMapped:
 class SExists(SBool):
     """any(f(k) for k in keys): a boolean b with  b => has(w) and f(w)  for a fresh witness w, and the
     universal direction  (not b) => for all k: has(k) => not f(k)  available through instance(k)"""
-    __slots__ = ("has", "fn", "universal")
+    __slots__ = ("has", "fn", "universal", "witness")
 
     def __init__(self, t, has, fn, universal):
         super().__init__(t)
